@@ -26,7 +26,8 @@ def gen_stack(ch, max_components=4):
     for _ in range(n):
         m = ch.draw(7, 'methods') + 1          # bitmask request|resource|response, non-empty
         comps.append({'request': bool(m & 1), 'resource': bool(m & 2), 'response': bool(m & 4),
-                      'async_suffix': bool(ch.draw(2, 'suffix'))})
+                      # ASGI: which methods carry the *_async suffix (bit per method; styles may be mixed)
+                      'async_suffix': [0, 7, 0, 7, 1, 2, 4, 3, 5, 6][ch.draw(10, 'suffix')]})
     nh = ch.draw(4, 'n_hooks')
     hooks = [ch.choice(['before', 'after'], 'hook') for _ in range(nh)]   # outermost first
     tgt = ch.draw(6, 'target')
@@ -86,7 +87,7 @@ class Stack(object):
         for i, c in enumerate(plan['components']):
             ns = {}
             if self.asgi:
-                sfx = '_async' if c['async_suffix'] else ''
+                sfx = ['_async' if int(c['async_suffix']) & b else '' for b in (1, 2, 4)]
 
                 def mk_req(i):
                     async def process_request(self, req, resp):
@@ -114,7 +115,7 @@ class Stack(object):
                         st._perform('mw%d.response' % i, req, resp)
                     return process_response
             else:
-                sfx = ''
+                sfx = ['', '', '']
 
                 def mk_req(i):
                     def process_request(self, req, resp):
@@ -136,11 +137,11 @@ class Stack(object):
                         st._perform('mw%d.response' % i, req, resp)
                     return process_response
             if c['request']:
-                ns['process_request' + sfx] = mk_req(i)
+                ns['process_request' + sfx[0]] = mk_req(i)
             if c['resource']:
-                ns['process_resource' + sfx] = mk_rsrc(i)
+                ns['process_resource' + sfx[1]] = mk_rsrc(i)
             if c['response']:
-                ns['process_response' + sfx] = mk_resp(i)
+                ns['process_response' + sfx[2]] = mk_resp(i)
             comps.append(type('MW%d' % i, (object,), ns)())
 
         # responder + hooks (hooks[0] is the outermost decorator)
